@@ -14,7 +14,7 @@ def spec(tier):
                       pipe("single", prio=3, at=3, durs=["db"])],
         "fork": [pipe("fanout3", prio=3, at=0, durs=[1, "da", 1], mems=[1, "ma", 1]), pipe("fanin3", prio=1, at=1, durs=[1, 2, "db"])],
     }
-    durations = (10, 1, 14) if th else (10,)
+    durations = (10, 1, 16) if th else (10,)
     for algo, pools, oc in algos:
         for multi in (True, False):
             if algo == "priority-pool" and not multi:
@@ -26,7 +26,7 @@ def spec(tier):
                     continue
                 for dur in durations:
                     cfg = dict(algo=algo, pools=pools, oc=oc, multi=multi, duration=dur, pipes=pp)
-                    sym = dict(cpus=I(1, 12), ma=I(1, 8), da=I(1, 2), db=I(1, 2))
+                    sym = dict(cpus=I(1, 24 if th else 12), ma=I(1, 8), da=I(1, 3 if th else 2), db=I(1, 3 if th else 2))
                     obs.append(CH(name=f"recount_{algo}_{'multi' if multi else 'single'}_{pname}_d{dur}", harness="rsim.stats_recount",
                                   sym=sym, fixed=dict(cfg=cfg, ram=30), timeout=1200))
     # runs that end while a suspension is still writing out (large pool => multi-tick write-outs)
